@@ -235,7 +235,7 @@ PROPS["C20"] = dict(
         "rejected otherwise; for every accepted p: to_bytes(p) == input and from_bytes(to_bytes(p)) == p; never panics. "
         "Key decoding (one key type): ecdsa::PublicKey::try_decode_der on the P-256 SubjectPublicKeyInfo header with "
         "symbolic length bytes followed by 0-3 symbolic bytes: always Err, never a panic."),
-    bounds="input lengths {0,1,2,3} (quick) + {4,6,34,36,44,45} (thorough), all byte values; unwind 70",
+    bounds="input lengths {0,1,2,3,44} (quick) + {4,6,34,36,45} (thorough), all byte values; unwind 70",
     outside="base58 text encoding; PeerId::from_public_key (needs key generation / SHA-256 / protobuf of real keys); public/private key protobuf round trips and decoding of full-length keys (curve arithmetic, RSA); DER inputs whose header is not the P-256 one; inputs longer than 45 bytes",
     stubs=[TRACING, FMT], assumptions=[FORGET], hooks=[],
 )
